@@ -663,6 +663,20 @@ def D69():
         return 'bidirectional transport with efficiency 0.5 and no costs is rejected: %s' % str(e)[:60]
 
 
+@witness
+def D70():
+    tg = A.Timegrid(dt.date(2021, 1, 1), dt.date(2021, 1, 2), freq='h'); T = tg.T
+    a = A.SimpleContract(name='a', nodes=N1, price='p', extra_costs='ec', min_cap=-5., max_cap=5.)
+    b = A.SimpleContract(name='b', nodes=N1, price='q', min_cap=-5., max_cap=5.)
+    pf = eao.portfolio.Portfolio([a, b])
+    pA = {'p': np.sin(np.arange(T)), 'q': np.cos(np.arange(T)), 'ec': 0.1 * np.ones(T)}
+    pB = {'p': np.cos(np.arange(T)), 'q': np.sin(np.arange(T)), 'ec': np.zeros(T)}
+    resA = pf.setup_optim_problem(pA, tg).optimize()
+    opC = pf.setup_optim_problem(pB, tg, fix_time_window={'I': np.arange(T) < 12, 'x': resA.x})
+    r = opC.optimize()
+    return 'extra costs from the price data: %d variables with ec = 0.1, %d with ec = 0; window fixed to the previous solution: %s' % (len(resA.x), len(opC.c), r if isinstance(r, str) else 'solved')
+
+
 if __name__ == '__main__':
     which = sys.argv[1:] or list(W)
     for k in which:
